@@ -347,7 +347,7 @@ func c15Servers(c *Ctx) {
 		}
 	}
 	for _, L := range genLayouts {
-		if L.name == "gen_alt" || L.name == "gen_irreg" || L.name == "gen_one" || L.name == "gen_192" || L.name == "gen_gap" {
+		if L.name == "gen_alt" || L.name == "gen_irreg" || L.name == "gen_one" || L.name == "gen_192" || L.name == "gen_gap" || L.name == "gen_nr0" || L.name == "gen_nr7" {
 			must(genAsset(vod, L))
 		}
 	}
